@@ -78,7 +78,7 @@ def tpm12_flags():
     return TPM12_INC
 
 
-EXTRACTORS = [("extract_consts", TPM2_INC, "Consts"), ("extract_blob", TPM2_INC, "Blob"), ("extract_cmds", TPM2_INC, "Cmds"), ("extract_pcr", TPM2_INC, "Pcr"), ("extract_nv", TPM2_INC, "Nv"),
+EXTRACTORS = [("extract_consts", TPM2_INC, "Consts"), ("extract_blob", TPM2_INC, "Blob"), ("extract_cmds", TPM2_INC, "Cmds"), ("extract_pcr", TPM2_INC, "Pcr"), ("extract_nv", TPM2_INC, "Nv"), ("extract_profile", TPM2_INC, "Profile"),
               ("extract_tpm12", tpm12_flags, "Tpm12")]
 
 
